@@ -1,0 +1,61 @@
+//go:build verif
+
+// Contracts for package graph, checked by /verif (pverif). Comments only.
+
+package graph
+
+//@ func abs64 arith bv inline
+//@ func compareNodes arith bv inline
+
+// PrintableName is a deterministic function of the NodeInfo value (assumed: its body
+// reads only the receiver and calls fmt/strings/filepath functions).
+//@ spec func printable(i NodeInfo) string
+//@ extern func NodeInfo.PrintableName pure
+//@   trusted PrintableName is a deterministic function of the receiver's value
+//@   requires i != nil
+//@   ensures result == printable(*i)
+
+// ---- C08: every ordering used in output is a strict total order on what it orders ----
+
+// Tags of one TagMap are distinguished by Name.
+//@ order tags_less arith bv
+//@   recv t tags
+//@   elems int
+//@   wf 0 <= $x && $x < len(t.t) && t.t[$x] != nil
+//@   less tags.Less
+//@   key t.t[$x].Name == t.t[$y].Name
+
+// Edges of one sort are distinguished by their end points (node identity).
+//@ order edgelist_less arith bv
+//@   recv el edgeList
+//@   elems int
+//@   wf 0 <= $x && $x < len(el) && el[$x] != nil && el[$x].Src != nil && el[$x].Dest != nil
+//@   less edgeList.Less
+//@   key el[$x].Src == el[$y].Src && el[$x].Dest == el[$y].Dest
+
+// Nodes of one graph are distinguished by Info.
+//@ order nodes_flatname arith bv
+//@   elems *Node
+//@   wf $x != nil
+//@   less Nodes.Sort$1
+//@   key $x.Info == $y.Info
+//@ order nodes_flatcumname arith bv
+//@   elems *Node
+//@   wf $x != nil
+//@   less Nodes.Sort$2
+//@   key $x.Info == $y.Info
+//@ order nodes_name arith bv
+//@   elems *Node
+//@   wf $x != nil
+//@   less Nodes.Sort$3
+//@   key $x.Info == $y.Info
+//@ order nodes_file arith bv
+//@   elems *Node
+//@   wf $x != nil
+//@   less Nodes.Sort$4
+//@   key $x.Info == $y.Info
+//@ order nodes_address arith bv
+//@   elems *Node
+//@   wf $x != nil
+//@   less Nodes.Sort$5
+//@   key $x.Info == $y.Info
